@@ -734,7 +734,7 @@ theorem simT_selfcall {k : Nat} (hV : TClaimV (k + 1)) (hA : FClaimA (k + 1)) (h
       have rel1' : RelF m2 s₁' rs2 env :=
         hact.rel₁.back (s₅ := s₁') rel2 (by subst hs1'; exact hsc5) (by subst hs1'; exact hfns5) (by subst hs1'; exact hheap5)
           (by subst hs1'; exact htr5) (by subst hs1'; exact hlin5) (by subst hs1'; rfl) hflags2 hfl2 hfo2 hext12.1 hle12
-          (by subst hs1'; exact hloops5)
+          (by subst hs1'; exact hloops5) (by subst hs1'; subst hs5; subst hs4; rfl)
       have hk1' : FnsKeep s₁ s₁' := FnsKeep.of_eq (by subst hs1'; rw [hfns5]; exact hfl2)
         (fun id hid => (hfo1' id).trans (hfo2 id hid)) hmain1 (by subst hs1'; unfold LoopsExt; rw [hloops5]; exact hle12)
       have good1' : GoodFn m2 s₁' rs2 vid :=
@@ -1287,6 +1287,7 @@ theorem fclaimU_succ {n : Nat} (hB : TClaimB n) : FClaimU (n + 1) := by
   have relB : RelF m s₄ rsB rs₁.frames.length := by
     refine hrel.enter hg (fun c' hc' => by rw [hc1] at hc'; injection hc' with hc'; rw [hc']) s₄ rsB t _ _ hsc4 hlin4 hfns4 hcur4 (by subst hs4; subst hs3; rfl) (by subst hs4; subst hs3; rfl)
       hfrB hclB hhpB htrB htclo (fun y => ?_) (fun y v hv => ?_) (fun h hh => ?_) hloops4
+      (by subst hs4; subst hs3; rfl) (by rw [hfold])
     · rw [lookup_bindsVars, lookup_bindsVars, List.reverse_reverse, lookup_reverse_of_nodup _ hndz', lookup_zip_map]
       cases (F.zip vs).lookup y <;> rfl
     · rw [lookup_bindsVars, List.reverse_reverse] at hv
